@@ -272,6 +272,7 @@ class C10(Harness):
                         if n >= 4 and watch:
                             budget -= 1          # (watched pipelines of four steps have schedule trees of > 10^5 nodes per program at the full budget)
                         out.append({'rx': True, 'program': list(prog), 'pipe': pipe, 'watch': watch, 'budget': budget})
+        out += [{'special': 'norefs', 'program': ['c']}, {'special': 'constant', 'program': ['c']}]
         return out
 
     def expected_final(self, program):
@@ -296,7 +297,55 @@ class C10(Harness):
                 last = ('w', k)       # the watcher's plain answer to the first value ends the generator's reign
         return last
 
+    def run_special(self, case):
+        """two constructor situations outside the main alphabet: (norefs) an async function given to a parameter that does not take
+        references is a plain value: it is neither called nor allowed to overwrite the parameter later; (constant) an async reference given
+        to a constant parameter through the constructor delivers its result like a synchronous one"""
+        import warnings
+        import param
+        reset_globals()
+        loop = VLoop().install()
+        vs = []
+        key = dict(program='special:' + case['special'])
+        try:
+            futs = []
+
+            async def coro():
+                f = loop.create_future()
+                futs.append(f)
+                await f
+                return 'result'
+            if case['special'] == 'norefs':
+                N = type('N', (param.Parameterized,), {'q': param.Parameter(default=0)})
+                with warnings.catch_warnings():
+                    warnings.simplefilter('ignore')
+                    n = N(q=coro)
+                loop.drain()
+                for f in futs:
+                    f.set_result(None)
+                loop.drain()
+                if n.q is not coro or futs or n._param__private.async_refs:
+                    vs.append(V('latest-wins', 'a parameter that does not take references was given an async function through the constructor: it was called %d time(s), '
+                                'the parameter now holds %r' % (len(futs), n.q), **key))
+            else:
+                K = type('K', (param.Parameterized,), {'c': param.Parameter(default=0, constant=True, allow_refs=True)})
+                k = K(c=coro)
+                loop.drain()
+                for f in futs:
+                    f.set_result(None)
+                loop.drain()
+                if k.c != 'result' or loop.unhandled or k._param__private.async_refs:
+                    vs.append(V('latest-wins', 'an async reference given to a constant parameter through the constructor completed, the parameter holds %r (loop errors: %r)' % (
+                        k.c, [str(u.get('exception')) for u in loop.unhandled]), **key))
+        finally:
+            loop.uninstall()
+        res = Result(vs, outcome='special', hits={'schedules': 1, 'nodes': 1}, nontrivial=True)
+        res['n'] = 1
+        return res
+
     def run_case(self, case):
+        if case.get('special'):
+            return self.run_special(case)
         if case.get('rx'):
             return self.run_rx(case)
         program, shared, B = case['program'], case['shared_fn'], case['budget']
